@@ -36,6 +36,12 @@ def step (st : Option SecBuf) (t : List String) : Option SecBuf × String :=
         | "sets", [h] => let bs := bytesOfHex h; some (b.setData (some bs) (BitVec.ofNat 64 (w32 bs.length)))
         | "app", [h] => some (b.appendData (bytesOfHex h))
         | "apps", [h] => some (b.appendData (bytesOfHex h))
+        | "appself", [o, n] =>
+          -- append_data( get_data() + off, n ): by value, the bytes the section holds there
+          let g := b.getData
+          let off := parseNat o; let n := parseNat n
+          if g.data.isNone || off + n > g.size.toNat then none
+          else some (g.appendData ((g.view.drop off).take n))
         | "ins", [p, h] => some (b.insertData (BitVec.ofNat 64 (parseNat p)) (bytesOfHex h))
         | "inss", [p, h] => some (b.insertData (BitVec.ofNat 64 (parseNat p)) (bytesOfHex h))
         | "get", [] => some (pure b.getData)
